@@ -424,6 +424,22 @@ pub(crate) fn items(thorough: bool) -> Vec<Item> {
         bound: bound_small,
         ahead: 3,
     });
+    // MMR activation boundary (epoch 1 = block 5): tips below, at and just above the first block
+    // of the activation epoch, which carries no chain root yet
+    v.push(Item {
+        name: "mmr-boundary".into(),
+        chain_len: 16,
+        plan: plan(5, &[16, 24, 36, 24]),
+        fork: None,
+        peers: vec![(1, 0, 4)],
+        phases: vec![Phase::Grow(5), Phase::Grow(6), Phase::Grow(8), Phase::Grow(16)],
+        last_n: n,
+        mmr_epoch: 1,
+        with_scripts: false,
+        seeds: seeds_small.clone(),
+        bound: bound_small,
+        ahead: 0,
+    });
     // three peers, one lagging, quorum 2
     v.push(Item {
         name: "three-peers".into(),
@@ -493,6 +509,8 @@ pub(crate) fn items(thorough: bool) -> Vec<Item> {
 
 pub(crate) fn build_scenario<'a>(env: &'a Env, item: &Item, seed: u64) -> HonestScenario<'a> {
     let mut chain = Chain::new(Arc::clone(&env.consensus), item.plan.clone());
+    // (honest full nodes commit the chain root only after the activation epoch)
+    chain.mmr_activated_epoch = item.mmr_epoch;
     let acts: Vec<(u64, Act)> = if item.with_scripts {
         vec![(2, Act::Mine('A')), (5, Act::Move('A', 'A')), (11, Act::Mine('A'))]
     } else {
